@@ -6,7 +6,7 @@ from typing import Any
 from ..absint import AObj, EnumVal
 from ..antlrstubs import Console, install_antlr
 from ..card import D, domain_wf, kind
-from ..codec import Codec, ctc_model, kind_model, name_model
+from ..codec import Codec, operator_trees, ctc_model, kind_model, name_model
 from ..core import AnalysisError, Ctx, loc
 from ..model import ModelBuilder, rich_model
 from ..pm import ProgramModel
@@ -81,6 +81,7 @@ def _run(pm: ProgramModel, ctx: Ctx, mb: ModelBuilder, cd: Codec) -> None:
         root = mb.feature("Root", is_abstract=flag)
         mb.relation(root, [mb.feature("A", is_abstract=not flag)], 1, 1)
         cd.report("FIELDS", f"abstract={flag}", cd.roundtrip(mb.model(root, [])), f"abstract flag {flag}", ("abstract",))
+    cd.abstract_positions(mb)
     # attribute + type + cardinality + abstract on one feature
     root = mb.feature("Root")
     f = mb.feature("All", is_abstract=True, ftype=EnumVal("FeatureType", "INTEGER", ft.get("INTEGER")), card=(0, 2))
@@ -114,10 +115,7 @@ def _run(pm: ProgramModel, ctx: Ctx, mb: ModelBuilder, cd: Codec) -> None:
     n, o = mb.node, mb.op
     cc = ("constraint", "constraint-count")
     for op in ("AND", "OR", "IMPLIES", "EQUIVALENCE", "REQUIRES", "EXCLUDES"):
-        roots = [(f"c_{op}", n(o(op), n("A"), n("B"))),
-                 (f"nested_{op}", n(o(op), n(o("NOT"), n("A")), n(o("AND"), n("B"), n("C")))),
-                 (f"inner_{op}", n(o("OR"), n(o(op), n("A"), n("B")), n("C"))),
-                 (f"right_{op}", n(o(op), n("A"), n(o(op), n("B"), n("C"))))]
+        roots = operator_trees(mb, op)
         cd.report("OPS", f"operator:{op}", cd.roundtrip(ctc_model(mb, roots)), f"constraints over {op}", cc)
     cd.report("OPS", "operator:NOT", cd.roundtrip(ctc_model(mb, [
         ("neg", n(o("NOT"), n("A"))), ("negneg", n(o("NOT"), n(o("NOT"), n("A")))),
